@@ -1204,8 +1204,8 @@ R_FLAGS = ["response_code_", "continue_sent_", "is_head_"]
 
 
 class RTr:
-    def __init__(self, line_states):
-        self.line_states = line_states
+    def __init__(self, line_states, msg="request_", parsed="request_parsed", limit="max_content_length_"):
+        self.line_states, self.msg, self.parsed, self.limit = line_states, msg, parsed, limit
 
     def ref(self, n, name):
         n = strip(n)
@@ -1244,12 +1244,14 @@ class RTr:
         return len(args) == 2 and self.ref(args[0], "iter") and self.ref(args[1], "end")
 
     def zexp(self, n):
+        if n.get("kind") == "ImplicitCastExpr" and self.this_member(n) == self.limit:
+            return "RZMaxContent"                  # an implicit conversion of the size limit to std::ptrdiff_t
         while n.get("kind") in ("ImplicitCastExpr", "ParenExpr", "ExprWithCleanups"):
             n = kids(n)[0]
         k = n.get("kind")
         if k == "CXXStaticCastExpr" and "ptrdiff_t" in n.get("type", {}).get("qualType", ""):
             inner = kids(n)[0]
-            if self.this_member(inner) == "max_content_length_":
+            if self.this_member(inner) == self.limit:
                 return "RZMaxContent"
             c = self.chain(inner)
             if c and c[0] == "body_" and [x[0] for x in c[1]] == ["size"]:
@@ -1268,8 +1270,10 @@ class RTr:
             f = strip(kids(n)[0]); name = f.get("referencedDecl", {}).get("name"); args = kids(n)[1:]
             if name == "distance" and self.is_parse_args(args):
                 return "RZDistance"
+        if self.this_member(n) == self.limit and n.get("kind") == "ImplicitCastExpr":
+            return "RZMaxContent"
         c = self.chain(n)
-        if c and c[0] == "request_" and [x[0] for x in c[1]] == ["content_length"]:
+        if c and c[0] == self.msg and [x[0] for x in c[1]] == ["content_length"]:
             return "RZContentLength"
         raise Untranslatable("ptrdiff expression in receive: " + str(k))
 
@@ -1283,8 +1287,10 @@ class RTr:
         if k == "BinaryOperator" and n.get("opcode") in ("&&", "||"):
             a, b = kids(n)
             return "(%s %s %s)" % ("RAnd" if n["opcode"] == "&&" else "ROr", self.rexp(a), self.rexp(b))
-        if k == "DeclRefExpr" and n.get("referencedDecl", {}).get("name") == "request_parsed":
+        if k == "DeclRefExpr" and n.get("referencedDecl", {}).get("name") == self.parsed:
             return "RParsed"
+        if k == "DeclRefExpr" and n.get("referencedDecl", {}).get("name") == "no_content_length":
+            return "RNoCl"
         if k == "BinaryOperator" and n.get("opcode") in ("!=", ">") and \
                 ((self.ref(kids(n)[0], "iter") and self.ref(kids(n)[1], "end")) or (self.ref(kids(n)[0], "end") and self.ref(kids(n)[1], "iter"))):
             if n["opcode"] == "!=" or (self.ref(kids(n)[0], "end") and self.ref(kids(n)[1], "iter")):
@@ -1299,12 +1305,12 @@ class RTr:
                     sb = kids(sb)[0]
                 if sb.get("kind") == "CXXStaticCastExpr" and "size_t" in sb.get("type", {}).get("qualType", ""):
                     cb = self.chain(kids(sb)[0])
-                    if cb and cb[0] == "request_" and [x[0] for x in cb[1]] == ["content_length"]:
+                    if cb and cb[0] == self.msg and [x[0] for x in cb[1]] == ["content_length"]:
                         return "RBodyIsContentLength"
                 raise Untranslatable("comparison of body_.size() in receive")
             # (body_.size() + chunk_.data().size()) > max_content_length_
             sa = strip(a)
-            if n["opcode"] == ">" and sa.get("kind") == "BinaryOperator" and sa.get("opcode") == "+" and self.this_member(b) == "max_content_length_":
+            if n["opcode"] == ">" and sa.get("kind") == "BinaryOperator" and sa.get("opcode") == "+" and self.this_member(b) == self.limit:
                 x, y = [self.chain(t) for t in kids(sa)]
                 if x and y and x[0] == "body_" and [t[0] for t in x[1]] == ["size"] and y[0] == "chunk_" and [t[0] for t in y[1]] == ["data", "size"]:
                     return "RSumOverLimit"
@@ -1321,7 +1327,9 @@ class RTr:
         if c:
             obj, calls = c
             names = [x[0] for x in calls]
-            if obj == "request_":
+            if obj == self.msg:
+                if names == ["is_chunked"] and self.msg == "response_":
+                    return "(RQuery rp_is_chunked_src)"
                 if names == ["valid"]:
                     return "RReqValid"
                 if names == ["parse"] and self.is_parse_args(calls[0][1]):
@@ -1361,7 +1369,7 @@ class RTr:
         """switch (request_.state()) { case E: S; break; ... default: S } -> nested ifs on the state of the request line"""
         ks = kids(n)
         c = self.chain(ks[0])
-        if not (c and c[0] == "request_" and [x[0] for x in c[1]] == ["state"]):
+        if not (c and c[0] == self.msg and [x[0] for x in c[1]] == ["state"]):
             raise Untranslatable("switch in receive")
         body = [x for x in ks if x.get("kind") == "CompoundStmt"][0]
         arms, default, cur = [], None, None
@@ -1411,8 +1419,10 @@ class RTr:
             vs = kids(n)
             if len(vs) == 1 and vs[0].get("kind") == "VarDecl" and kids(vs[0]):
                 name, init = vs[0].get("name"), kids(vs[0])[0]
-                if name == "request_parsed":
+                if name == self.parsed:
                     return "(RLetParsed %s)" % self.rexp(init)
+                if name == "no_content_length":
+                    return "(RLetNoCl %s)" % self.rexp(init)
                 if name == "rx_size":
                     return "(RLetRx %s)" % self.zexp(init)
                 if name == "content_length":
@@ -1430,6 +1440,8 @@ class RTr:
                 return "RJumpNext"
             if self.ref(lhs, "iter") and self.ref(rhs, "end"):
                 return "RJumpEnd"
+            if self.ref(lhs, "content_length"):
+                return "(RAssignCl %s)" % self.zexp(rhs)
             m = self.this_member(lhs)
             if m == "response_code_":
                 r_ = strip(rhs)
@@ -1446,7 +1458,7 @@ class RTr:
                 names = [x[0] for x in calls]
                 if obj == "this" and names == ["clear"]:
                     return "RClear"
-                if obj == "request_" and names == ["clear"]:
+                if obj == self.msg and names == ["clear"]:
                     return "RReqClear"
                 if obj == "chunk_" and names == ["clear"]:
                     return "RChunkClear"
@@ -1508,6 +1520,44 @@ def translate_receiver():
     body = lambda m: [c for c in kids(m) if c.get("kind") == "CompoundStmt"][0]
     return tr.rstmt(body(recv)), tr.rstmt(body(clr))
 
+
+
+def translate_response_receiver():
+    inst = "via::http::response_receiver<std::string, 65534, 65534, 100, 65534, 1024, 8, false>"
+    with tempfile.TemporaryDirectory() as d:
+        tu = os.path.join(d, "tu.cpp")
+        with open(tu, "w") as f:
+            f.write('#include "via/http/response.hpp"\n')
+            f.write("template class %s;\n" % inst)
+            f.write("template via::http::Rx %s::receive<const char*>(const char*&, const char*);\n" % inst)
+        p = subprocess.run(["clang++", "-std=c++17", "-I" + os.path.join(REPO, "include"), "-fsyntax-only",
+                            "-Xclang", "-ast-dump=json", "-Xclang", "-ast-dump-filter=response", tu],
+                           stdout=subprocess.PIPE, stderr=subprocess.PIPE, text=True)
+        if p.returncode != 0:
+            raise Untranslatable("clang: " + p.stderr[-400:])
+        docs = load_docs(p.stdout)
+    recv = clr = None
+    qb = None
+    for dd in docs:
+        for n in walk(dd):
+            if n.get("kind") == "ClassTemplateSpecializationDecl" and n.get("name") == "response_receiver":
+                for m in walk(n):
+                    if m.get("kind") == "CXXMethodDecl" and any(c.get("kind") == "CompoundStmt" for c in kids(m)):
+                        if m.get("name") == "receive" and any(c.get("kind") == "TemplateArgument" for c in (m.get("inner") or [])) and recv is None:
+                            recv = m
+                        if m.get("name") == "clear" and clr is None:
+                            clr = m
+    if recv is None or clr is None:
+        raise Untranslatable("response_receiver: receive / clear not found")
+    # rx_response::is_chunked() must be the header block's query
+    qb = method_bodies(docs, "rx_response", ["is_chunked"])
+    rs = kids(qb["is_chunked"])
+    fn, obj, args = call_name(kids(rs[0])[0]) if len(rs) == 1 and rs[0].get("kind") == "ReturnStmt" else (None, None, None)
+    if not (fn == "is_chunked" and obj is not None and obj.get("kind") == "MemberExpr" and obj.get("name") == "headers_" and not args):
+        raise Untranslatable("rx_response::is_chunked")
+    tr = RTr({}, msg="response_", parsed="response_parsed", limit="max_body_size_")
+    body = lambda m: [c for c in kids(m) if c.get("kind") == "CompoundStmt"][0]
+    return tr.rstmt(body(recv)), tr.rstmt(body(clr))
 
 CLASSES = [
     dict(name="rl", cls="request_line", header="via/http/request.hpp", enum="Request", state="state_", param="c",
@@ -1670,6 +1720,12 @@ def main(dest):
     lines.append("(* request_receiver::receive(iter, end) and clear() *)")
     lines.append("Definition rv_receive_src : rstmt :=\n  %s." % rv_recv)
     lines.append("Definition rv_clear_src : rstmt :=\n  %s." % rv_clear)
+    cv_recv, cv_clear = translate_response_receiver()
+    lines.append("(* rx_response::is_chunked() is the header block's query *)")
+    lines.append("Definition rp_is_chunked_src : rqexp := (RQHdr hd_is_chunked_src).")
+    lines.append("(* response_receiver::receive(iter, end) and clear() *)")
+    lines.append("Definition cv_receive_src : rstmt :=\n  %s." % cv_recv)
+    lines.append("Definition cv_clear_src : rstmt :=\n  %s." % cv_clear)
     txt = "\n".join(lines) + "\n"
     # unchanged output keeps its time stamp: make then has nothing to rebuild
     if not os.path.exists(dest) or open(dest).read() != txt:
